@@ -307,3 +307,41 @@ def self_state_stores(fn, cls_methods=None, ignore_accumulators=True):
         if isinstance(x, (ast.Global, ast.Nonlocal)):
             out.append(("global/nonlocal", x.lineno))
     return out
+
+
+def all_guards(node, fn):
+    """[(condition, polarity)] that hold whenever `node` is evaluated: enclosing statement guards plus the conditional
+    expressions (IfExp arms, right operands of and/or) the node sits in; positive conjunctions are split."""
+    from .model import parent
+    out = []
+    n = node
+    while n is not None and n is not fn:
+        p_ = parent(n)
+        if isinstance(p_, ast.IfExp):
+            if n is p_.body:
+                out.append((p_.test, True))
+            elif n is p_.orelse:
+                out.append((p_.test, False))
+        if isinstance(p_, ast.BoolOp) and n in p_.values:
+            i = p_.values.index(n)
+            for earlier in p_.values[:i]:
+                out.append((earlier, isinstance(p_.op, ast.And)))
+        if isinstance(p_, (ast.FunctionDef, ast.Lambda)):
+            break
+        if isinstance(p_, ast.stmt):
+            break
+        n = p_
+    st = enclosing_stmt(node)
+    inner = enclosing_fn = None
+    from .model import enclosing_function
+    enclosing_fn = enclosing_function(node) or fn
+    out += list(guards_of(st, enclosing_fn))
+    res = []
+    for t, pol in out:
+        if pol and isinstance(t, ast.BoolOp) and isinstance(t.op, ast.And):
+            res += [(v, True) for v in t.values]
+        elif (not pol) and isinstance(t, ast.BoolOp) and isinstance(t.op, ast.Or):
+            res += [(v, False) for v in t.values]
+        else:
+            res.append((t, pol))
+    return res
